@@ -1,1 +1,246 @@
-//! placeholder, filled in below
+//! Rigorous enclosure of e^x by outward-rounded interval arithmetic on big
+//! integers: argument halving x -> x/2^k, Taylor sum with explicit remainder
+//! bound, k interval squarings, reciprocal for negative arguments.
+
+use crate::dec::{ndigits, pow10i, Dec};
+use num_bigint::BigInt;
+use num_integer::Integer;
+use num_traits::{One, Signed, Zero};
+use std::cmp::Ordering;
+
+/// working fractional digits of the fixed-point Taylor stage and mantissa length
+/// of the floating interval afterwards
+pub const WORK_DIGITS: u64 = 170;
+
+/// value in [lo * 10^exp, hi * 10^exp], 0 < lo <= hi
+#[derive(Clone, Debug)]
+pub struct Interval {
+    pub lo: BigInt,
+    pub hi: BigInt,
+    pub exp: i128,
+}
+
+fn floor_div(a: &BigInt, b: &BigInt) -> BigInt {
+    a.div_floor(b)
+}
+
+fn ceil_div(a: &BigInt, b: &BigInt) -> BigInt {
+    let (q, r) = a.div_mod_floor(b);
+    if r.is_zero() {
+        q
+    } else {
+        q + 1
+    }
+}
+
+impl Interval {
+    fn renormalize(mut self) -> Interval {
+        let d = ndigits(&self.hi);
+        if d > WORK_DIGITS + 10 {
+            let cut = d - WORK_DIGITS;
+            let p = pow10i(cut);
+            self.lo = floor_div(&self.lo, &p);
+            self.hi = ceil_div(&self.hi, &p);
+            self.exp += cut as i128;
+        }
+        self
+    }
+
+    fn square(&self) -> Interval {
+        Interval { lo: &self.lo * &self.lo, hi: &self.hi * &self.hi, exp: self.exp * 2 }.renormalize()
+    }
+
+    fn mul(&self, o: &Interval) -> Interval {
+        Interval { lo: &self.lo * &o.lo, hi: &self.hi * &o.hi, exp: self.exp + o.exp }.renormalize()
+    }
+
+    fn recip(&self) -> Interval {
+        // 1 / [lo, hi] 10^exp  =  [10^K / hi, 10^K / lo] * 10^(-K - exp)
+        let k = 2 * WORK_DIGITS + 20;
+        let one = pow10i(k);
+        Interval { lo: floor_div(&one, &self.hi), hi: ceil_div(&one, &self.lo), exp: -(k as i128) - self.exp }.renormalize()
+    }
+
+    pub fn lo_dec(&self) -> Dec {
+        Dec::new(self.lo.clone(), -self.exp)
+    }
+    pub fn hi_dec(&self) -> Dec {
+        Dec::new(self.hi.clone(), -self.exp)
+    }
+
+    /// upper bound of (hi - lo) / lo, as a power of ten exponent (relative width <= 10^that)
+    pub fn rel_width_exp10(&self) -> i64 {
+        let w = &self.hi - &self.lo;
+        if w.is_zero() {
+            return i64::MIN / 2;
+        }
+        ndigits(&w) as i64 - ndigits(&self.lo) as i64 + 1
+    }
+
+    pub fn contains(&self, d: &Dec) -> bool {
+        self.lo_dec().cmp_val(d) != Ordering::Greater && self.hi_dec().cmp_val(d) != Ordering::Less
+    }
+}
+
+/// enclosure of e^y for 0 <= y given as the fixed-point interval [y_lo, y_hi] * 10^-F, y_hi < 10^F / 128
+fn exp_small_nonneg(y_lo: &BigInt, y_hi: &BigInt, f: u64) -> Interval {
+    let unit = pow10i(f);
+    assert!(!y_lo.is_negative() && y_lo <= y_hi && (y_hi * 128) < unit, "oracle: reduced argument out of range");
+    // lower bound: partial sums of the series at y_lo with every term rounded down
+    // upper bound: partial sums at y_hi with every term rounded up, plus a remainder bound
+    let mut sum_lo = unit.clone();
+    let mut sum_hi = unit.clone();
+    let mut term_lo = unit.clone();
+    let mut term_hi = unit.clone();
+    let mut n = 0u32;
+    loop {
+        n += 1;
+        let nb = BigInt::from(n) * &unit;
+        term_lo = floor_div(&(&term_lo * y_lo), &nb);
+        term_hi = ceil_div(&(&term_hi * y_hi), &nb);
+        sum_lo += &term_lo;
+        sum_hi += &term_hi;
+        if term_hi <= BigInt::one() || n > 2000 {
+            break;
+        }
+    }
+    assert!(n <= 2000, "oracle: Taylor series did not converge");
+    // remainder after the last added term T_n (upper bound term_hi): sum_{j>n} y^j/j! <= T_n * (y/(n+1)) / (1 - y/(n+2)) <= T_n
+    // since y < 1/128; rounding of that bound is covered by adding 2 more units
+    sum_hi += &term_hi + 2;
+    Interval { lo: sum_lo, hi: sum_hi, exp: -(f as i128) }
+}
+
+/// Rigorous enclosure of e^x.  |x| must be below 10^6 (far beyond the checked domain).
+pub fn exp_interval(x: &Dec) -> Interval {
+    let f = WORK_DIGITS;
+    if x.is_zero() {
+        return Interval { lo: BigInt::one(), hi: BigInt::one(), exp: 0 };
+    }
+    let ax = x.abs();
+    assert!(ax.adjusted() <= 6, "oracle: |x| too large for exp_interval");
+    // k halvings so that |x| / 2^k < 1/128
+    let adj = ax.adjusted(); // |x| < 10^adj
+    let mut k: u32 = 0;
+    if adj > -3 {
+        // 10^adj / 2^k < 2^-7  <=  k >= 7 + adj * log2(10)
+        k = (7.0 + (adj as f64) * 3.3219280949 + 1.0).ceil().max(0.0) as u32;
+    }
+    // y = |x| / 2^k as a fixed-point interval with f fractional digits:
+    // |x| = n * 10^-s  =>  y * 10^f = n * 10^(f - s) / 2^k
+    let n = ax.int.clone();
+    let s = ax.scale;
+    let den = BigInt::one() << (k as usize);
+    let (y_lo, y_hi) = if (f as i128) >= s {
+        let num = n * pow10i((f as i128 - s) as u64);
+        (floor_div(&num, &den), ceil_div(&num, &den))
+    } else {
+        let d2 = &den * pow10i((s - f as i128) as u64);
+        (floor_div(&n, &d2), ceil_div(&n, &d2))
+    };
+    let mut iv = exp_small_nonneg(&y_lo, &y_hi, f);
+    for _ in 0..k {
+        iv = iv.square();
+    }
+    if x.signum() < 0 {
+        iv = iv.recip();
+    }
+    iv
+}
+
+/// oracle self-test on one pair of arguments: e^a * e^-a contains 1, and the
+/// enclosures of e^(a+b) and e^a * e^b intersect and are both narrow
+pub fn self_test(a: &Dec, b: &Dec) -> Result<(), String> {
+    let ea = exp_interval(a);
+    let ena = exp_interval(&a.neg());
+    let prod = ea.mul(&ena);
+    if !prod.contains(&Dec::one()) {
+        return Err(format!("e^a * e^-a does not contain 1 for a = {}", a.show()));
+    }
+    let eb = exp_interval(b);
+    let eab = exp_interval(&a.add(b));
+    let p = ea.mul(&eb);
+    // intersection non-empty
+    if p.lo_dec().cmp_val(&eab.hi_dec()) == Ordering::Greater || eab.lo_dec().cmp_val(&p.hi_dec()) == Ordering::Greater {
+        return Err(format!("e^(a+b) and e^a*e^b are disjoint for a = {}, b = {}", a.show(), b.show()));
+    }
+    for (name, iv) in [("e^a", &ea), ("e^b", &eb), ("e^(a+b)", &eab)] {
+        if iv.rel_width_exp10() > -140 {
+            return Err(format!("{} enclosure too wide: 10^{}", name, iv.rel_width_exp10()));
+        }
+    }
+    Ok(())
+}
+
+#[derive(Clone, Debug, PartialEq)]
+pub enum ExpVerdict {
+    /// |r - e^x| <= units * unit for certain
+    Within,
+    /// |r - e^x| > units * unit for certain; err ~ error in units (rough)
+    Outside { approx_units: f64 },
+    /// the enclosure straddles the bound
+    Undecided,
+}
+
+/// Decide |r - e^x| <= `units` units of the `digits`-th significant digit of e^x
+/// (unit taken in the larger decade if r and e^x straddle a power of ten).
+pub fn judge(x: &Dec, r: &Dec, digits: u64, units: u64) -> (ExpVerdict, Interval) {
+    let iv = exp_interval(x);
+    let (lo, hi) = (iv.lo_dec(), iv.hi_dec());
+    let adj_true = hi.adjusted();
+    let adj_r = if r.is_zero() || r.signum() < 0 { adj_true } else { r.adjusted() };
+    let adj = adj_true.max(adj_r);
+    let tol = Dec::new(BigInt::from(units), -(adj - digits as i128)); // units * 10^(adj - digits)
+    // certainly within: hi - tol <= r <= lo + tol
+    let within = r.cmp_val(&lo.add(&tol)) != Ordering::Greater && r.cmp_val(&hi.sub(&tol)) != Ordering::Less;
+    if within {
+        return (ExpVerdict::Within, iv);
+    }
+    // certainly outside: r > hi + tol or r < lo - tol
+    let outside = r.cmp_val(&hi.add(&tol)) == Ordering::Greater || r.cmp_val(&lo.sub(&tol)) == Ordering::Less;
+    if outside {
+        let unit = Dec::new(BigInt::one(), -(adj - digits as i128));
+        let err = if r.cmp_val(&hi) == Ordering::Greater { r.sub(&hi) } else { lo.sub(r) };
+        return (ExpVerdict::Outside { approx_units: crate::quot::approx_ratio(&err.abs(), &unit) }, iv);
+    }
+    (ExpVerdict::Undecided, iv)
+}
+
+#[cfg(test)]
+mod tests {
+    use super::*;
+
+    fn d(s: &str, sc: i128) -> Dec {
+        Dec::from_str_int(s, sc)
+    }
+
+    #[test]
+    fn e_itself() {
+        let iv = exp_interval(&d("1", 0));
+        // e = 2.71828182845904523536028747135266249775724709369995957496696762772407663035354759457138217852516642742746...
+        let e100 = d("2718281828459045235360287471352662497757247093699959574966967627724076630353547594571382178525166427", 99);
+        let e100_up = d("2718281828459045235360287471352662497757247093699959574966967627724076630353547594571382178525166428", 99);
+        assert!(iv.lo_dec().cmp_val(&e100) == Ordering::Greater);
+        assert!(iv.hi_dec().cmp_val(&e100_up) == Ordering::Less);
+        assert!(iv.rel_width_exp10() < -150);
+    }
+
+    #[test]
+    fn identities() {
+        let cases = [("1", 0i128), ("-1", 0), ("25", 1), ("-24", 0), ("1000", 0), ("-1000", 0), ("123456789", 12), ("-5", 40), ("999999", 3), ("230258509299", 11)];
+        for (i, (a, sa)) in cases.iter().enumerate() {
+            let (b, sb) = cases[(i + 3) % cases.len()];
+            self_test(&d(a, *sa), &d(b, sb)).unwrap();
+        }
+    }
+
+    #[test]
+    fn judge_works() {
+        let x = d("1", 0);
+        let good = d("2718281828459045235360287471352662497757247093699959574966967627724076630353547594571382178525166427", 99);
+        let off2 = d("2718281828459045235360287471352662497757247093699959574966967627724076630353547594571382178525166430", 99);
+        assert_eq!(judge(&x, &good, 100, 1).0, ExpVerdict::Within);
+        assert!(matches!(judge(&x, &off2, 100, 1).0, ExpVerdict::Outside { .. }));
+        assert_eq!(judge(&x, &off2, 100, 3).0, ExpVerdict::Within);
+    }
+}
